@@ -27,7 +27,7 @@ from ..report import Ctx
 from ..selftest import Mutant
 
 PROP = "C13"
-TECHNIQUE = "static analysis: handler analysis of every user-call site (try/except, handle_error arguments) + noreturn CFG of handle_error + broad-handler swallow analysis via effects + snapshot def-use + handler-cannot-raise rule"
+TECHNIQUE = "static analysis: handler analysis of every user-call site (try/except, handle_error arguments) + noreturn CFG of handle_error + broad-handler swallow analysis via effects + snapshot def-use + handler-cannot-raise rule + thread release on every __exit__ path (must-pass) + exception coverage of environment calls in snapshot default factories + iterator-protocol rule (user-reaching callables resolved through parameters, partials and record fields)"
 EXPLANATION = (
     "Static analysis over the resolved call graph: all call sites of PipeFunc.__call__ in the execution modules are "
     "located and their enclosing try/except shape and argument identity are checked; handle_error's CFG is checked to "
@@ -435,6 +435,7 @@ def check(ctx: Ctx) -> None:
 
 R, B, U, PF = "pipefunc/map/_run.py", "pipefunc/_pipeline/_base.py", "pipefunc/_utils.py", "pipefunc/_pipefunc.py"
 MUTANTS = [
+    Mutant("local-ip-catches-too-little", "pipefunc/_utils.py", "    except Exception:  # noqa: BLE001  # pragma: no cover\n        return \"unknown\"\n", "    except (socket.gaierror, socket.timeout):  # pragma: no cover\n        return \"unknown\"\n", ("C13.4-snapshot",), why="round-4 seed C13/12"),
     Mutant("success-clears-snapshot", PF, "            try:\n                result = self.func(*args, **kwargs)\n", "            self.error_snapshot = None\n            try:\n                result = self.func(*args, **kwargs)\n", ("C13.4-snapshot",), why="round-2 seed C13/5"),
     Mutant("map-call-bare", R, "    def compute_fn() -> Any:\n        try:\n            return func(**selected)\n        except Exception as e:\n            handle_error(e, func, selected)\n            # handle_error raises but mypy doesn't know that\n            raise  # pragma: no cover\n",
            "    def compute_fn() -> Any:\n        return func(**selected)\n", ("C13.1-wrapped",)),
